@@ -31,11 +31,13 @@ Inductive reason :=
   | DebugNotRendered     (* [derive(Debug)]: the derived rendering of this type never reaches printed text,
                             diagnostics or encoded bytes (only [log::debug!]); CompositionGraph itself has a
                             hand-written Debug over petgraph's index-ordered Dot with [Config::NodeNoLabel] *)
+  | ReducedByMin         (* the visited entries are filtered/mapped and reduced with [Iterator::min]: the minimum of a
+                            multiset does not depend on the order in which its elements are met ([min_order_indep]) *)
   | NotAHashContainer.   (* for [RAmbiguous] sites: the receiver is not a hash container after all *)
 
 Inductive model_fn :=
   | MUnregisterRetain | MDefineTypeScan | MEncodeExplicitImports | MRedirectUpdate
-  | MFindInterface | MWorldIncludeMissing | MPlugGroups.
+  | MFindInterface | MWorldIncludeMissing | MPlugGroups | MConflictFirstNode.
 
 Inductive class :=
   | OrderIrrelevant (r : reason) (m : option model_fn)
@@ -82,6 +84,18 @@ Definition modelled : list (site * class) := [
     "self.imports.retain(|_,n|self.graph[*n].package!=Some(package));"
     "a5a6f26d85cfd9ad",
    OrderIrrelevant RetainPurePredicate (Some MUnregisterRetain));
+  (* fix 591363d: the `first` node of an ImportTypeMergeConflict is the MINIMUM node index among the implicit and
+     explicit imports on the same semver track *)
+  (mk_site "crates/wac-graph/src/graph.rs" "CompositionGraphEncoder::resolve_imports"
+    "explicit_imports" "iter" RHash
+    "let first=instantiations.iter().filter(|(other,_)|wac_types::are_semver_compatible(other,name)).map(|(_,index)|*index).chain(explicit_imports.iter().filter(|(other,_)|{wac_types::are_semver_compatible"
+    "db06168524e48147",
+   OrderIrrelevant ReducedByMin (Some MConflictFirstNode));
+  (mk_site "crates/wac-graph/src/graph.rs" "CompositionGraphEncoder::resolve_imports"
+    "instantiations" "iter" RHash
+    "let first=instantiations.iter().filter(|(other,_)|wac_types::are_semver_compatible(other,name)).map(|(_,index)|*index).chain(explicit_imports.iter().filter(|(other,_)|{wac_types::are_semver_compatible"
+    "db06168524e48147",
+   OrderIrrelevant ReducedByMin (Some MConflictFirstNode));
   (mk_site "crates/wac-graph/src/graph.rs" "CompositionGraphEncoder::encode_imports"
     "explicit_imports" "for" RHash
     "for (name,node_index) in explicit_imports{ let canonical=aggregator.canonical_import_name(name); let (_,encoded_index)=encoded[canonical];state.node_indexes.insert(node_index,encoded_index);}"
@@ -294,6 +308,16 @@ Fixpoint run_unsorted_from (o : oracle) (u : universe) (k : nat) (s : gstate) (o
   match ops with
   | [] => s
   | op :: r => run_unsorted_from o u (S k) (fst (step_unsorted o k u s op)) r
+  end.
+
+(** * (c') [resolve_imports] (fix 591363d): the `first` node of a merge conflict *)
+
+(** [visit1], [visit2]: the entries of [instantiations] / [explicit_imports] in iteration order as (name, node);
+    [compat]: semver compatibility with the conflicting name; [dflt]: the conflicting node itself. *)
+Definition conflict_first (compat : name -> bool) (visit1 visit2 : list (name * nat)) (dflt : nat) : nat :=
+  match map snd (filter (fun p => compat (fst p)) (visit1 ++ visit2)) with
+  | [] => dflt
+  | x :: r => fold_left Nat.min r x
   end.
 
 (** * (c) [encode_imports]: the loop over the [explicit_imports] HashMap *)
